@@ -25,5 +25,6 @@ p,c,m=sys.argv[1:4]
 j=json.load(open(p)); j['caught_by']=c.split(); j['not_caught_by']=m.split(); j['mutation_run']="tools/mutation_run.sh (scratch worktree of /repo HEAD, VERIF_REPO/VERIF_OUT, quick tier, VERIF_SEED default)"
 json.dump(j,open(p,'w'),indent=1)
 PY
+  [ -n "$KEEP" ] && { mkdir -p /tmp/mutkeep; cp -r $out /tmp/mutkeep/$id; }
   git -C /repo worktree remove --force $wt; rm -rf $out /verif/.bin/*$(echo $wt | tr '/' '_')*
 done
